@@ -143,6 +143,23 @@ class NeedMutSelf(Exception):
     as a state-updating method"""
 
 
+def desugar_iter_mut(node):
+    """(b1012, round 9) `for x in PLACE.iter_mut() { *x = RHS; }` (exactly one statement, an assignment through the loop
+    variable) is `PLACE = PLACE.iter().map(|x| RHS).collect();` -- every element is replaced by RHS evaluated on it, in order.
+    Any other use of `iter_mut` in a `for` stays refused."""
+    if isinstance(node, list): return [desugar_iter_mut(x) for x in node]
+    if not isinstance(node, tuple): return node
+    if len(node) == 4 and node[0] == "for" and node[1][0] == "pvar" and isinstance(node[2], tuple) and len(node[2]) == 6 \
+            and node[2][0] == "mcall" and node[2][2] == "iter_mut" and not node[2][4] \
+            and node[3][0] == "block" and len(node[3][1]) == 1 and node[3][2] is None:
+        st = node[3][1][0]
+        if st[0] == "expr" and st[1][0] == "assign" and st[1][1] == "=" and st[1][2] == ("deref", ("path", [node[1][1]])):
+            X, ln, rhs = node[2][1], node[2][5], st[1][3]
+            return ("assign", "=", X, ("mcall", ("mcall", ("mcall", X, "iter", None, [], ln), "map", None,
+                                                 [("closure", [node[1]], rhs, "same_elt")], ln), "collect", None, [], ln))
+    return tuple(desugar_iter_mut(x) for x in node)
+
+
 class Unit:
     """one Rust source file -> one Lean namespace"""
 
@@ -185,6 +202,8 @@ class Unit:
             for n, fields in idx.structs.items():
                 if n not in self.fi.structs:
                     self.fi.structs[n] = fields; self.struct_src[n] = "trusted view declared in translate/x_fn.py"
+            for n, vs in idx.enums.items():     # unit-variant enums of library types (e.g. atomic `Ordering`): b1012, round 9
+                self.fi.enums.setdefault(n, vs)
         for r in struct_files:      # struct declarations of other files, used as local structures
             idx = index_of(r)
             for n, fields in idx.structs.items():
@@ -208,6 +227,15 @@ class Unit:
         # structs of other crates whose fields the code reads (e.g. bitcoin::OutPoint {txid, vout}): declared in the
         # target list (trusted: field names and types are checked by rustc only through the differential harness)
         for n, flds in (foreign_structs or {}).items():
+            if isinstance(flds, str):
+                # b1012, round 9: `"Alias": "@path/of/file.rs::Struct"` -- a struct of another file of /repo imported under another
+                # name (`use …::VelocityControl as CoreVelocityControl`): its fields are read from that file's current source
+                r_, _, sn_ = flds[1:].partition("::")
+                if not flds.startswith("@") or sn_ not in index_of(r_).structs:
+                    raise RsError("foreign_structs: %s: no struct %s" % (n, flds))
+                if n not in self.fi.structs:
+                    self.fi.structs[n] = index_of(r_).structs[sn_]; self.struct_src[n] = "%s (struct %s)" % (r_, sn_)
+                continue
             if n not in self.fi.structs:
                 self.fi.structs[n] = [(f, Parser(lex(ty) + [Tok("eof", "", 0)], 0, "<foreign>").type_()) for f, ty in flds.items()]
                 self.struct_src[n] = "declared in the target list"
@@ -415,6 +443,7 @@ class Unit:
                 f = src.function(impl, name)
             else:
                 f = self.fi.function(impl, name)
+            f = dict(f); f["body"] = desugar_iter_mut(f["body"])
             try:
                 info = FnTranslator(self, f).run()
             except NeedMutSelf:
@@ -786,6 +815,15 @@ class FnTranslator:
                 return self.wrap(pre, P(self.pack(env, r[0])))
         raise RsError("Result-typed tail expression outside the subset: %s" % e[0])
 
+    def log_only_iflet_err(self, s, var):
+        """statement `if let Err(..) = var { logging macros only }` (no else)"""
+        if not (s[0] == "expr" and s[1][0] == "iflet" and s[1][4] is None): return False
+        _, pat, scrut, body, _ = s[1]
+        if scrut != ("path", [var]) or pat[0] != "pctor" or pat[1] != ["Err"]: return False
+        if body[0] != "block" or body[2] is not None: return False
+        logs = LOG_MACROS + tuple(getattr(self.u, "log_macros", ()))
+        return all(it[0] == "expr" and it[1][0] == "macro" and it[1][1] in logs for it in body[1])
+
     def err_tag(self, e, env, pre):
         """Lean String term standing for an error value"""
         if e[0] == "unit": return '"()"'
@@ -793,6 +831,11 @@ class FnTranslator:
         if e[0] == "call" and e[1][0] == "path" and e[1][1][-1] == "policy_error":
             term, ty = self.expr(e[2][0], env, pre, ("str",))
             self.dropped.append("message of policy_error(..)")
+            return term
+        if e[0] == "call" and e[1][0] == "path" and e[1][1][-1] == "temporary_policy_error" and len(e[2]) == 2:
+            # (b0507) policy/error.rs: same tag, kind TemporaryPolicy instead of Policy (as for temporary_policy_err!)
+            term, ty = self.expr(e[2][0], env, pre, ("str",))
+            self.dropped.append("message and the `temporary` kind of temporary_policy_error(..)")
             return term
         if e[0] == "call" and e[1][0] == "path" and e[1][1][-1] in self.u.error_ctors and len(e[2]) == 1:
             # declared error constructor carrying a list of indices: tag = "<prefix> " ++ toString list
@@ -980,6 +1023,12 @@ class FnTranslator:
                 return self.stmts(rest, tail, env2, fin)
             if pat[0] == "pvar" and ("let:" + pat[1]) in self.u.externals:
                 return self.let_external(pat[1], e, line, rest, tail, env, fin)
+            if pat[0] == "pvar" and ty is None and e[0] in ("call", "mcall") and self.is_result and tail == ("path", [pat[1]]) \
+                    and rest and all(self.log_only_iflet_err(s, pat[1]) for s in rest):
+                # (b0507) `let res = f(..); if let Err(ref e) = res { <logging only> } res`: the Result of the call is
+                # passed on unchanged; the logging block is dropped like every logging macro
+                self.dropped.append("`if let Err(..) = %s { logging only }` after line %d" % (pat[1], line))
+                return self.stmts([], e, env, fin)
             if e[0] == "macro" and e[1] == "scoped_debug_return" and pat[0] == "pvar" \
                     and "scoped_debug_return" not in getattr(self.u, "log_macros", ()):
                 # util/debug_utils.rs: a guard that `debug!`-prints its arguments when it is dropped while its flag is
@@ -1693,7 +1742,10 @@ class FnTranslator:
                 return self.place_set(place, v, env, pre)
             r = self.mutator(recv, e[2], e[4], env, pre, None, discard=True)
             if r is not None: return env
-            raise RsError("mutating method %s on %r is outside the subset" % (e[2], bt[0]))
+            # (b1012, round 9) a struct of the unit with a method of its own that happens to be named like a collection mutator
+            # (`VelocityControl::clear`): the ordinary call of a `&mut self` method on a place, below
+            if not (bt[0] == "struct" and self.u.fi.fns.get((bt[1], e[2])) not in (None, "ambiguous")):
+                raise RsError("mutating method %s on %r is outside the subset" % (e[2], bt[0]))
         term, t = self.expr(e, env, pre, None)
         if t != UNIT:
             # a discarded value: fine if pure (its bindings stay for their panics)
@@ -2107,7 +2159,6 @@ class FnTranslator:
             term, t = self.expr(fe, env, pre, ft)
             self.check_ty(t, ft, "field %s" % f)
             parts.append("%s := %s" % (lid(f), term))
-        if not parts: return "⟨⟩", ("struct", name)        # (round 9) a structure without (used) fields: `mk ::`
         return "{ " + ", ".join(parts) + " }", ("struct", name)
 
     def format_(self, e, env, pre):
@@ -3013,6 +3064,13 @@ class FnTranslator:
             if want is not None and want == bt: return base, bt, "val"
             if k in ("opaque", "struct") and (bt[1] + ".into") in self.u.externals:      # (round 9) declared conversion
                 return self.call_external(bt[1] + ".into", [], env, pre, recv=(base, bt))
+            if want is not None and want[0] == "struct" and bt[0] == "struct" and self.u.fi.fns.get((want[1], "from")) not in (None, "ambiguous"):
+                # b1012, round 9: `x.into()` where the wanted type is a struct of the unit with exactly one `impl From<_> for T`
+                # (conversions between in-memory and persisted types): the call `T::from(x)`; the argument type is checked
+                info = self.u.get_fn(want[1], "from")
+                ps = [p_ for p_ in info.params if p_[0] != "self"]
+                if len(ps) == 1 and ps[0][1] == bt and not info.mut_params:
+                    return self.call_translated(info, [base if base.startswith("(") or " " not in base else "(" + base + ")"], env, pre)
             raise RsError(".into() without a known widening target")
         if k == "viter":
             # values/keys/entries of a collection in an order the model does not know
@@ -3308,7 +3366,8 @@ class FnTranslator:
             return "(%s.contains %s)" % (base, x), BOOL, "val"
         if bt[0] != "iter": raise RsError("method .%s on a vector is outside the subset" % m)
         if m == "map":
-            pats, ir, t = self.closure1(args[0], [el], env, None)
+            # (a closure made by desugar_iter_mut returns a new element: its result is typed by the element type)
+            pats, ir, t = self.closure1(args[0], [el], env, el if len(args[0]) > 3 and args[0][3] == "same_elt" else None)
             if t == INTLIT: raise RsError("closure returning an untyped literal")
             if not monadic(ir):
                 return "(%s.map (fun %s => %s))" % (base, pats[0], inline(ir)), ("iter", t), "val"
